@@ -44,7 +44,12 @@ EXTRA = {"C01-2": ["C07"], "C04-1": ["C07"], "C06-2": ["C07"], "C03-b1": ["C07"]
          "C18-y2": ["C04", "C05"], "C03-y1": ["C05", "C13"], "C03-y2": ["C13"], "C06-y1": ["C19", "C17"], "C06-y2": ["C19", "C05", "C15"],
          "C09-y1": ["C10"], "C09-y2": ["C13", "C12"], "C05-y1": ["C03", "C04"], "C05-y2": ["C10"], "C07-y1": ["C16", "C08"],
          "C07-y2": ["C16", "C03"], "C15-y1": ["C05"], "C15-y2": ["C11", "C18"], "C19-y1": ["C06", "C02"], "C19-y2": ["C06"],
-         "C20-y1": ["C17"], "C20-y2": []}
+         "C20-y1": ["C17"], "C20-y2": [],
+         "C01-z1": ["C02"], "C01-z2": ["C06"], "C02-z1": ["C01", "C09"], "C02-z2": ["C13"], "C03-z1": ["C05"], "C03-z2": ["C05"],
+         "C04-z1": ["C01", "C05"], "C04-z2": ["C07"], "C05-z1": ["C03"], "C05-z2": ["C07", "C16"], "C06-z1": ["C19"], "C06-z2": ["C01"],
+         "C07-z1": ["C08"], "C08-z2": ["C13"], "C09-z2": ["C16"], "C10-z2": ["C13"], "C11-z2": ["C13", "C12"], "C12-z1": ["C16"],
+         "C13-z1": ["C08"], "C13-z2": ["C08"], "C15-z1": ["C20"], "C15-z2": ["C14"], "C16-z2": ["C12"], "C17-z2": ["C13"],
+         "C18-z2": ["C13"], "C19-z1": ["C06"], "C19-z2": ["C06"]}
 def run_one(name, checks):
     d = os.path.join(SEEDED, name)
     wt = tempfile.mkdtemp(prefix="hsv-mx-", dir="/tmp"); os.rmdir(wt)
